@@ -616,7 +616,7 @@ func c01Check(c *mc.Ctx, k c01Case, doMem, doStreamW, doStreamR bool) {
 			vsync.Reset()
 			in := append(append([]byte{}, want...), c01Trail...)
 			er := NewEnvReader(in, k.Env)
-			dr := bufiox.NewDefaultReader(er)
+			dr := bufiox.NewDefaultReader(er.Src())
 			br := thrift.NewBufferReader(dr)
 			var sdecoded []cv
 			for i, v := range vals {
@@ -673,7 +673,7 @@ func c01Check(c *mc.Ctx, k c01Case, doMem, doStreamW, doStreamR bool) {
 				// implementation of the caller's own: it must read that stream
 				pre := cv{K: "i64", I: 0x1122334455667788}
 				in2 := append(cvRef(nil, pre), want...)
-				br2 := thrift.NewBufferReader(customReader{bufiox.NewDefaultReader(NewEnvReader(in2, k.Env))})
+				br2 := thrift.NewBufferReader(customReader{bufiox.NewDefaultReader(NewEnvReader(in2, k.Env).Src())})
 				for i, v := range append([]cv{pre}, vals...) {
 					got, err := cvBufRead(v.K, br2)
 					if err != nil || !cvEq(got, stripLen(v)) {
